@@ -1,5 +1,201 @@
 import PyttbModel.Core.Rows
 import PyttbModel.Core.Dims
 import PyttbModel.Core.Arr
+import PyttbModel.Lemmas.Idx
+import Mathlib.Algebra.Ring.Defs
+/-!
+Lemmas about `kr2` and `khatrirao` (column-wise Kronecker product).
+-/
 namespace Pyttb
+
+section kr2
+variable {α : Type} [Mul α]
+
+theorem kr2_nil (M : Mat α) : kr2 ([] : Mat α) M = [] := rfl
+
+theorem kr2_cons (p : List α) (P M : Mat α) :
+    kr2 (p :: P) M = M.map (fun mrow => List.zipWith (· * ·) mrow p) ++ kr2 P M := by
+  simp [kr2]
+
+theorem length_kr2 (P M : Mat α) : (kr2 P M).length = P.length * M.length := by
+  induction P with
+  | nil => simp [kr2_nil]
+  | cons p P ih => rw [kr2_cons, List.length_append, List.length_map, ih, List.length_cons, Nat.succ_mul]; omega
+
+theorem kr2_getElem? (P M : Mat α) (a b : Nat) (ha : a < P.length) (hb : b < M.length) :
+    (kr2 P M)[a * M.length + b]? = some (List.zipWith (· * ·) (M[b]) (P[a])) := by
+  induction P generalizing a with
+  | nil => simp at ha
+  | cons p P ih =>
+    rw [kr2_cons]
+    cases a with
+    | zero =>
+      rw [Nat.zero_mul, Nat.zero_add, List.getElem?_append_left (by simpa using hb)]
+      simp [List.getElem?_eq_getElem hb]
+    | succ a =>
+      have ha' : a < P.length := by simpa using ha
+      rw [List.getElem?_append_right (by rw [List.length_map, Nat.succ_mul]; omega)]
+      have e : (a + 1) * M.length + b - (M.map (fun mrow => List.zipWith (· * ·) mrow p)).length
+          = a * M.length + b := by
+        rw [List.length_map, Nat.succ_mul]; omega
+      rw [e, ih a ha']
+      simp
+
+theorem kr2_rows (P M : Mat α) (R : Nat) (hP : ∀ row ∈ P, row.length = R) (hM : ∀ row ∈ M, row.length = R) :
+    ∀ row ∈ kr2 P M, row.length = R := by
+  intro row hrow
+  unfold kr2 at hrow
+  simp only [List.mem_flatMap, List.mem_map] at hrow
+  obtain ⟨p, hp, m, hm, rfl⟩ := hrow
+  rw [List.length_zipWith, hP p hp, hM m hm, Nat.min_self]
+
+theorem kr2_entry [Zero α] (P M : Mat α) (R a b r : Nat)
+    (hP : ∀ row ∈ P, row.length = R) (hM : ∀ row ∈ M, row.length = R)
+    (ha : a < P.length) (hb : b < M.length) (hr : r < R) :
+    (kr2 P M).length = P.length * M.length ∧
+    (kr2 P M).get (a * M.length + b) r = M.get b r * P.get a r := by
+  refine ⟨length_kr2 P M, ?_⟩
+  unfold Mat.get
+  have hPa : (P[a]).length = R := hP _ (List.getElem_mem ha)
+  have hMb : (M[b]).length = R := hM _ (List.getElem_mem hb)
+  simp only [List.getD_eq_getElem?_getD, kr2_getElem? P M a b ha hb, List.getElem?_eq_getElem ha,
+    List.getElem?_eq_getElem hb, Option.getD_some]
+  rw [List.getElem?_eq_getElem (by rw [List.length_zipWith]; omega),
+    List.getElem?_eq_getElem (by omega), List.getElem?_eq_getElem (by omega)]
+  simp
+end kr2
+
+
+theorem numel_append (s t : List Nat) : numel (s ++ t) = numel s * numel t := by
+  induction s with
+  | nil => simp
+  | cons a s ih => simp [ih, Nat.mul_assoc]
+
+theorem numel_reverse (s : List Nat) : numel s.reverse = numel s := by
+  induction s with
+  | nil => rfl
+  | cons a s ih => rw [List.reverse_cons, numel_append, ih]; simp [Nat.mul_comm]
+
+theorem sub2ind_append_singleton (s i : List Nat) (a x : Nat) (hl : i.length = s.length) :
+    sub2ind (s ++ [a]) (i ++ [x]) = sub2ind s i + numel s * x := by
+  induction s generalizing i with
+  | nil =>
+    cases i with
+    | nil => simp [sub2ind]
+    | cons j i => simp at hl
+  | cons c s ih =>
+    cases i with
+    | nil => simp at hl
+    | cons j i =>
+      simp only [List.length_cons, Nat.add_right_cancel_iff] at hl
+      simp only [List.cons_append, sub2ind, numel_cons, ih i hl, Nat.mul_add, Nat.mul_assoc]
+      omega
+
+theorem sub2ind_reverse_cons (s i : List Nat) (a x : Nat) (hl : i.length = s.length) :
+    sub2ind (a :: s).reverse (x :: i).reverse = sub2ind s.reverse i.reverse + numel s * x := by
+  rw [List.reverse_cons, List.reverse_cons, sub2ind_append_singleton _ _ _ _ (by simpa using hl),
+    numel_reverse]
+
+theorem foldl_kr2_entry {α : Type} [CommSemiring α] (rest : List (Mat α)) (P : Mat α) (R : Nat)
+    (i : List Nat) (a r : Nat)
+    (hP : ∀ row ∈ P, row.length = R) (hrest : ∀ M ∈ rest, ∀ row ∈ M, row.length = R) (hr : r < R)
+    (ha : a < P.length) (hi : InBounds (rest.map List.length) i) :
+    (rest.foldl kr2 P).length = P.length * numel (rest.map List.length) ∧
+    (rest.foldl kr2 P).get
+        (sub2ind (rest.map List.length).reverse i.reverse + numel (rest.map List.length) * a) r =
+      P.get a r * (List.zipWith (fun M ik => M.get ik r) rest i).prod := by
+  induction rest generalizing P i a with
+  | nil =>
+    cases i with
+    | nil => simp [sub2ind]
+    | cons j i => simp [InBounds] at hi
+  | cons M rest ih =>
+    cases i with
+    | nil => simp [InBounds] at hi
+    | cons b i =>
+      simp only [List.map_cons, InBounds] at hi
+      obtain ⟨hb, hi'⟩ := hi
+      have hM := hrest M List.mem_cons_self
+      have hrest' : ∀ M ∈ rest, ∀ row ∈ M, row.length = R := fun M' h => hrest M' (List.mem_cons_of_mem _ h)
+      obtain ⟨hlen, hent⟩ := kr2_entry P M R a b r hP hM ha hb hr
+      have ha' : a * M.length + b < (kr2 P M).length := by
+        rw [hlen]
+        calc a * M.length + b < a * M.length + M.length := by omega
+          _ = (a + 1) * M.length := by rw [Nat.succ_mul]
+          _ ≤ P.length * M.length := Nat.mul_le_mul_right _ ha
+      obtain ⟨h1, h2⟩ := ih (kr2 P M) i (a * M.length + b) (kr2_rows P M R hP hM) hrest' ha' hi'
+      simp only [List.foldl_cons, List.map_cons, numel_cons, List.zipWith_cons_cons, List.prod_cons]
+      refine ⟨by rw [h1, hlen, Nat.mul_assoc], ?_⟩
+      rw [sub2ind_reverse_cons _ _ _ _ (by simpa using hi'.length_eq)]
+      have e : sub2ind (rest.map List.length).reverse i.reverse + numel (rest.map List.length) * b +
+            M.length * numel (rest.map List.length) * a
+          = sub2ind (rest.map List.length).reverse i.reverse +
+            numel (rest.map List.length) * (a * M.length + b) := by
+        rw [Nat.mul_add, Nat.mul_comm M.length, Nat.mul_assoc, Nat.mul_comm M.length a]
+        omega
+      rw [e, h2, hent, mul_comm (M.get b r), mul_assoc]
+
+
+theorem pos_length_of_inBounds {α : Type} (Ms : List (Mat α)) (i : List Nat)
+    (hi : InBounds (Ms.map List.length) i) : ∀ M ∈ Ms, 0 < M.length := by
+  induction Ms generalizing i with
+  | nil => intro M hM; cases hM
+  | cons M0 Ms ih =>
+    cases i with
+    | nil => simp [InBounds] at hi
+    | cons b i =>
+      simp only [List.map_cons, InBounds] at hi
+      intro M hM
+      rcases List.mem_cons.1 hM with rfl | h
+      · omega
+      · exact ih i hi.2 M h
+
+theorem ncols_eq {α : Type} (M : Mat α) (R : Nat) (hM : ∀ row ∈ M, row.length = R) (hpos : 0 < M.length) :
+    M.ncols = R := by
+  unfold Mat.ncols
+  rw [List.getD_eq_getElem?_getD, List.getElem?_eq_getElem hpos, Option.getD_some]
+  exact hM _ (List.getElem_mem hpos)
+
+theorem khatrirao_cons {α : Type} [Mul α] (M0 : Mat α) (rest : List (Mat α)) :
+    khatrirao (M0 :: rest) false =
+      if rest.all (fun M => M.ncols == M0.ncols) then .ok (rest.foldl kr2 M0) else .error .reject := rfl
+
+theorem khatrirao_entry {α : Type} [CommSemiring α] (Ms : List (Mat α)) (R : Nat) (i : List Nat) (r : Nat)
+    (hne : Ms ≠ []) (hR : ∀ M ∈ Ms, ∀ row ∈ M, row.length = R) (hr : r < R)
+    (hi : InBounds (Ms.map List.length) i) :
+    ∃ K, khatrirao Ms false = .ok K ∧ K.length = numel (Ms.map List.length) ∧
+      K.get (sub2ind (Ms.map List.length).reverse i.reverse) r =
+        (List.zipWith (fun M ik => M.get ik r) Ms i).prod := by
+  cases Ms with
+  | nil => exact absurd rfl hne
+  | cons M0 rest =>
+    cases i with
+    | nil => simp [InBounds] at hi
+    | cons a i =>
+      have hpos := pos_length_of_inBounds _ _ hi
+      simp only [List.map_cons, InBounds] at hi
+      obtain ⟨ha, hi'⟩ := hi
+      have hM0 := hR M0 List.mem_cons_self
+      have hrest : ∀ M ∈ rest, ∀ row ∈ M, row.length = R := fun M h => hR M (List.mem_cons_of_mem _ h)
+      have hall : rest.all (fun M => M.ncols == M0.ncols) = true := by
+        rw [List.all_eq_true]
+        intro M hM
+        rw [ncols_eq M R (hrest M hM) (hpos M (List.mem_cons_of_mem _ hM)),
+          ncols_eq M0 R hM0 (hpos M0 List.mem_cons_self)]
+        simp
+      obtain ⟨h1, h2⟩ := foldl_kr2_entry rest M0 R i a r hM0 hrest hr ha hi'
+      refine ⟨rest.foldl kr2 M0, by rw [khatrirao_cons, if_pos hall], ?_, ?_⟩
+      · simpa using h1
+      · simp only [List.map_cons, List.zipWith_cons_cons, List.prod_cons]
+        rw [sub2ind_reverse_cons _ _ _ _ (by simpa using hi'.length_eq)]
+        exact h2
+
+theorem khatrirao_rejects {α : Type} [Mul α] (M0 : Mat α) (rest : List (Mat α))
+    (h : ∃ M ∈ rest, M.ncols ≠ M0.ncols) : khatrirao (M0 :: rest) false = .error .reject := by
+  rw [khatrirao_cons, if_neg]
+  intro hall
+  rw [List.all_eq_true] at hall
+  obtain ⟨M, hM, hne⟩ := h
+  exact hne (by simpa using hall M hM)
+
 end Pyttb
